@@ -23,11 +23,21 @@ def free_port():
     return p
 
 
-def gwf(proj, args, timeout=60):
+class Unanswered(Exception):
+    """A healthy gwf command got no answer from the pool in time: an observation (the pool hangs)."""
+
+
+class _NoAnswer:
+    returncode, stdout, stderr = -98, "", "no answer from the worker pool"
+
+
+def gwf(proj, args, timeout=25):
     env = dict(os.environ, NO_COLOR="1")
-    p = subprocess.run([sys.executable, "-c", "from gwf.cli import main; main()"] + list(args), cwd=proj, env=env,
-                       stdout=subprocess.PIPE, stderr=subprocess.PIPE, text=True, timeout=timeout)
-    return p
+    try:
+        return subprocess.run([sys.executable, "-c", "from gwf.cli import main; main()"] + list(args), cwd=proj, env=env,
+                              stdout=subprocess.PIPE, stderr=subprocess.PIPE, text=True, timeout=timeout)
+    except subprocess.TimeoutExpired:
+        raise Unanswered(" ".join(args))
 
 
 def wait_until(pred, timeout=30.0, step=0.05):
@@ -78,8 +88,8 @@ def scenario(cores, ntasks, misbehave):
     env = dict(os.environ, NO_COLOR="1")
     workers = subprocess.Popen([sys.executable, "-c", "from gwf.cli import main; main()", "workers", "-n", str(cores), "-p", str(port), "-h", "127.0.0.1"],
                                cwd=proj, env=env, stdout=subprocess.PIPE, stderr=subprocess.PIPE, start_new_session=True)
-    obs = {"started": False, "run_exit": None, "max_live": 0, "status_ok": False, "all_completed": False, "served_after": False,
-           "bad_sent": list(misbehave), "cancel_exit": None}
+    obs = {"started": False, "run_exit": -1, "max_live": 0, "status_ok": False, "all_completed": False, "served_after": False,
+           "bad_sent": list(misbehave), "cancel_exit": -1}
     try:
         def up():
             try:
@@ -139,6 +149,8 @@ def scenario(cores, ntasks, misbehave):
         obs["served_after"] = r.returncode == 0 and wait_until(lambda: os.path.exists(os.path.join(proj, names[0] + ".out")), 20)
         r = gwf(proj, ["cancel", "-f"])
         obs["cancel_exit"] = r.returncode
+    except Unanswered as exc:
+        obs["unanswered"] = str(exc)     # the remaining observations keep their "not seen" defaults
     finally:
         try:
             os.killpg(workers.pid, 9)
